@@ -219,6 +219,13 @@ def run_case(servers, keys, prefix, pooling):
         r = w.call("get", k)
         if r != ("ret", None):
             P.append(("get-after-delete", f"get({k!r}) after delete returned {r!r}"))
+    # 4b. values that are falsy or None are values like any other: every entry of a set_many is sent
+    odd = {k: v for k, v in zip(keys, itertools.cycle([None, b"", 0, False, "", b"v"]))}
+    r = w.call("set_many", odd)
+    if r != ("ret", []):
+        P.append(("set_many-odd-values-result", f"set_many({odd}) returned {r!r}, expected no failed keys"))
+    if keys:
+        check_routing(w, "set_many-odd-values", keys, P)
     # 5. delete_many reaches every key's server
     r = w.call("delete_many", keys, noreply=False)
     if keys:
